@@ -1582,6 +1582,39 @@ class Interp:
                                 if want == 1:
                                     st.frames[depth]["__odd"] = frozenset(st.frames[depth].get("__odd", frozenset())) | {tl}
 
+        # (y >> k) ==/!= c : narrow y (a local, a copy of a local, or an array element with constant / focused index)
+        if op in ("Eq", "Ne") and b[1] == b[2] and oa[0] in ("c", "m") and not oa[1][1]:
+            ds = fv.defs.get(oa[1][0], [])
+            if len(ds) == 1 and ds[0].kind == "assign" and ds[0].rv[0] == "bin" and ds[0].rv[1] == "Shr":
+                y_o, k_o = ds[0].rv[2], ds[0].rv[3]
+                kk = self.deconst(self.operand(st, depth, fv, k_o))
+                if kk[0] == "i" and kk[1] == kk[2] and y_o[0] in ("c", "m") and not y_o[1][1]:
+                    sh = kk[1]
+                    c = b[1]
+                    yl = y_o[1][0]
+                    yv = st.frames[depth].get(yl)
+                    if yv is not None and yv[0] == "i" and yv[1] >= 0:
+                        if op == "Eq":
+                            nlo, nhi = max(yv[1], c << sh), min(yv[2], ((c + 1) << sh) - 1)
+                        else:
+                            nlo, nhi = yv[1], yv[2]
+                            if (yv[1] >> sh) == c:
+                                nlo = max(nlo, (c + 1) << sh)
+                            if (yv[2] >> sh) == c:
+                                nhi = min(nhi, (c << sh) - 1)
+                        if nlo <= nhi:
+                            st.frames[depth][yl] = ("i", nlo, nhi)
+                            # write back to the place the temporary was copied from
+                            yd = fv.defs.get(yl, [])
+                            if len(yd) == 1 and yd[0].kind == "assign" and yd[0].rv[0] == "use" and yd[0].rv[1][0] in ("c", "m"):
+                                src = yd[0].rv[1][1]
+                                if not src[1]:
+                                    st.frames[depth][src[0]] = ("i", nlo, nhi)
+                                elif len(src[1]) == 1 and isinstance(src[1][0], list) and src[1][0][0] == "i":
+                                    iv = st.frames[depth].get(src[1][0][1])
+                                    if iv is not None and iv[0] == "i" and iv[1] == iv[2]:
+                                        self.write_place(st, depth, src, ("i", nlo, nhi))
+
         def odd_tighten(l):
             odd = st.frames[depth].get("__odd")
             if odd and l in odd:
